@@ -18,4 +18,5 @@ set +e
 RC=$?
 grep -E "VIOLATION|KNOWN-FINDING|TOOL-ERROR|exit " $D/out.txt | cut -c1-300 | head -${MUTANT_LINES:-6}
 grep -A1 "^VIOLATION" $D/out.txt | grep -v "^VIOLATION\|^--" | cut -c1-400 | head -3
+[ $RC -ge 2 ] && tail -25 $D/out.txt | cut -c1-300
 exit $RC
